@@ -49,6 +49,40 @@ pub open spec fn sct_content_post(i: Seq<u8>, r: IResult<&[u8], SignedCertificat
 }
 '''
 
+ROUNDTRIP = r'''
+// The property as stated (C14), for the content of one SCT: what an RFC 6962 3.2 encoder wrote is what comes back -
+// version, 32-byte log id, the 64-bit timestamp over its full range, extensions, hash / signature algorithm, signature -
+// and the encoding is consumed exactly.
+pub open spec fn enc_u16(n: int) -> Seq<u8> { seq![(n / 256) as u8, (n % 256) as u8] }
+proof fn lemma_sct_content_roundtrip(ver: u8, id: Seq<u8>, ts: Seq<u8>, ext: Seq<u8>, h: u8, sg: u8, sig: Seq<u8>, tail: Seq<u8>, r: IResult<&[u8], SignedCertificateTimestamp>)
+    requires id.len() == 32, ts.len() == 8, ext.len() <= 65535, sig.len() <= 65535,
+        sct_content_post(seq![ver] + id + ts + enc_u16(ext.len() as int) + ext + seq![h, sg] + enc_u16(sig.len() as int) + sig + tail, r),
+    ensures r is Ok, r->Ok_0.0@ =~= tail, r->Ok_0.1.version.0 == ver, r->Ok_0.1.id.key_id@ =~= id, r->Ok_0.1.timestamp as int == be64s(ts, 0),
+        r->Ok_0.1.extensions.0@ =~= ext, r->Ok_0.1.signature.alg is Some, r->Ok_0.1.signature.alg->Some_0.hash.0 == h,
+        r->Ok_0.1.signature.alg->Some_0.sign.0 == sg, r->Ok_0.1.signature.data@ =~= sig,
+{
+    let el = ext.len() as int; let sl = sig.len() as int;
+    let b = seq![ver] + id + ts + enc_u16(el) + ext + seq![h, sg] + enc_u16(sl) + sig + tail;
+    let o = 43 + el;
+    assert(b.len() == o + 4 + sl + tail.len());
+    assert(b[0] == ver);
+    assert(b.subrange(1, 33) =~= id);
+    assert(b.subrange(33, 41) =~= ts);
+    assert(be64s(b, 33) == be64s(ts, 0)) by {
+        let e = ts;
+        assert(b[33] == e[0] && b[34] == e[1] && b[35] == e[2] && b[36] == e[3] && b[37] == e[4] && b[38] == e[5] && b[39] == e[6] && b[40] == e[7]);
+    }
+    assert(b[41] == (el / 256) as u8 && b[42] == (el % 256) as u8);
+    assert(be16s(b, 41) == el);
+    assert(b.subrange(43, 43 + el) =~= ext);
+    assert(b[o] == h && b[o + 1] == sg);
+    assert(b[o + 2] == (sl / 256) as u8 && b[o + 3] == (sl % 256) as u8);
+    assert(be16s(b, o + 2) == sl);
+    assert(b.subrange(o + 4, o + 4 + sl) =~= sig);
+    assert(b.subrange(o + 4 + sl, b.len() as int) =~= tail);
+}
+'''
+
 UNIT = {
     "name": "sct_content",
     "needs_expanded": True,
@@ -82,5 +116,5 @@ UNIT = {
                      {"after": r"let \(i, extensions\) = [^;]*;", "text": "    let ghost o: int = lp_next(i0, 41, 2);\n    proof { assert(lp_ok(i0, 41, 2)); assert(extensions.0@ =~= lp_data(i0, 41, 2)); assert(i@ =~= i0.subrange(o, i0.len() as int)); lemma_lp_shift(i0, o, 2, 2); }"},
                      {"after": r"let \(i, signature\) = [^;]*;", "text": "    proof { assert(i0.len() >= o + 2 && lp_ok(i0, o + 2, 2)); assert(signature.data@ =~= lp_data(i0, o + 2, 2)); assert(i@ =~= i0.subrange(lp_next(i0, o + 2, 2), i0.len() as int)); }"}]},
     ],
-    "epilogue": "",
+    "epilogue": ROUNDTRIP,
 }
